@@ -549,7 +549,7 @@ def procCheck (G : GCtx) (pi : PInfo) : Bool :=
   atB G.env.ds (G.iEpi pi) (G.epi pi) &&
   decide (pi.gs2.size ≤ G.S pi) && decide (pi.p.locals.length ≤ pi.gs1.offset) &&
   (pi.gs2.constMap.all (fun e => G.consts.contains e) && pi.gs2.strs.all (fun e => G.strs.contains e)) && decide (G.S pi ≤ G.smax) &&
-  okS5 G.pk G.pnames G.xc.impure G.rho pi.p.body && pi.p.formals.all isVAFormal && pi.p.locals.all isVarDecl &&
+  okS5 G.pk G.pnames G.xc.impure G.rho (G.isLoc pi) pi.p.body && pi.p.formals.all isVAFormal && pi.p.locals.all isVarDecl &&
   G.procs.all (fun pj =>
     match G.cg.tbl.lookup pi.p.name pj.p.name with
     | .ok sym => decide ((sym.type = .func) ↔ (pj.p.isFunc = true))
@@ -682,7 +682,7 @@ theorem ok_of_checks (G : GCtx) (imgWords : Nat)
        atB G.env.ds (G.iBody pi) (lowerCode G.cg pi.code) = true ∧ atB G.env.ds (G.iEpi pi) (G.epi pi) = true ∧
        pi.gs2.size ≤ G.S pi ∧ pi.p.locals.length ≤ pi.gs1.offset ∧
        ((∀ e ∈ pi.gs2.constMap, G.consts.contains e = true) ∧ (∀ e ∈ pi.gs2.strs, G.strs.contains e = true)) ∧ G.S pi ≤ G.smax ∧
-       okS5 G.pk G.pnames G.xc.impure G.rho pi.p.body = true ∧ pi.p.formals.all isVAFormal = true ∧ pi.p.locals.all isVarDecl = true) ∧
+       okS5 G.pk G.pnames G.xc.impure G.rho (G.isLoc pi) pi.p.body = true ∧ pi.p.formals.all isVAFormal = true ∧ pi.p.locals.all isVarDecl = true) ∧
       ((∀ pj ∈ G.procs, (match G.cg.tbl.lookup pi.p.name pj.p.name with
           | .ok sym => decide ((sym.type = .func) ↔ (pj.p.isFunc = true))
           | .error _ => false) = true) ∧
@@ -1660,7 +1660,7 @@ def isV2 (P : X.Program) : Bool :=
   let gn := P.globals.map X.Decl.name
   let pn := P.procs.map (·.name)
   isGDecls P.globals [] &&
-  P.procs.all (fun p => p.formals.all isVAFormal && p.locals.all isVarDecl && okS5 false pn [] (v2Rho P) p.body &&
+  P.procs.all (fun p => p.formals.all isVAFormal && p.locals.all isVarDecl && okS5 false pn [] (v2Rho P) (fun _ => true) p.body &&
     (p.formals.map X.Formal.name ++ p.locals.map X.Decl.name).all (fun n => !gn.contains n && !pn.contains n)) &&
   (match P.procs.find? (·.name == "main") with
    | some m => !m.isFunc && m.formals.isEmpty
@@ -1705,7 +1705,7 @@ def isV3 (P : X.Program) : Bool :=
   let gn := P.globals.map X.Decl.name
   let pn := P.procs.map (·.name)
   isGDecls P.globals [] &&
-  P.procs.all (fun p => p.formals.all isVAFormal && p.locals.all isVarDecl && okS5 true pn (X.impureProcs P) (v2Rho P) p.body &&
+  P.procs.all (fun p => p.formals.all isVAFormal && p.locals.all isVarDecl && okS5 true pn (X.impureProcs P) (v2Rho P) (fun _ => true) p.body &&
     (p.formals.map X.Formal.name ++ p.locals.map X.Decl.name).all (fun n => !gn.contains n && !pn.contains n)) &&
   (match P.procs.find? (·.name == "main") with
    | some m => !m.isFunc && m.formals.isEmpty
